@@ -17,7 +17,9 @@ import RtamtProofs.GenDenseOnInter
 import RtamtProofs.GenDenseOnBin
 import RtamtProofs.GenDenseOnUn
 import RtamtProofs.GenDenseOnTimed
+import RtamtProofs.GenDenseOnIA
 import RtamtProofs.Dense.OnMain
+import Rtamt.Discrete.IA
 
 namespace Rtamt.Py.DnOn
 open Rtamt Val Rtamt.Dense Rtamt.Dense.Alg Rtamt.Dense.AlgOn
@@ -427,7 +429,7 @@ def binObjRel (op : Bin) (st : BinSt α) (o : DV α) : Prop :=
   match op with
   | .mul => GOnBin.BinRelNL "MultiplicationOperation" st o
   | .pred c => GOnBin.PredRel c st o
-  | .predSat _ => False
+  | .predSat c => GOnIA.IAPredRel c st o
   | .predZero => False
   | op => GOnBin.BinRel (GOnBin.binCls op) st o
 
@@ -447,18 +449,30 @@ def timedObjRel (op : TB1) (a b : Rat) (st : TimedSt α) (o : DV α) : Prop :=
 
 end GOn
 
-/-- the formulas for which `initOnG` builds an object at every node the mirror `initOn` has a state for: the
-    interface-aware predicate forms are excluded (`initOnG` returns `.error .other`; the mirror has a state for
-    `.predSat`). -/
+/-- the formulas for which `initOnG` builds an object at every node the mirror `initOn` has a state for: the vacuity form
+    `.predZero` of the interface-aware predicate is excluded (`initOnG` and `initOn` return `.error .other`). -/
 def _root_.Rtamt.F.onSupported : F α → Bool
   | .var _ => true
   | .const _ => true
   | .un _ φ => φ.onSupported
-  | .bin op φ ψ => (match op with | .predSat _ | .predZero => false | _ => true) && φ.onSupported && ψ.onSupported
+  | .bin op φ ψ => (match op with | .predZero => false | _ => true) && φ.onSupported && ψ.onSupported
   | .tmp1 _ φ => φ.onSupported
   | .tmp2 _ φ ψ => φ.onSupported && ψ.onSupported
   | .tb1 _ _ _ φ => φ.onSupported
   | .tb2 _ _ _ φ ψ => φ.onSupported && ψ.onSupported
+
+/-- the formula has an interface-aware predicate with the operator `!=` (`.bin (.predSat .ne)`): the only node at which the
+    translated class and the mirror read the verdict differently (`GOnIA.satOn` / `satOfDiff`), so that the law
+    `GOnIA.SatNeLaw` of the value type is needed -/
+def _root_.Rtamt.F.usesSatNe : F α → Bool
+  | .var _ => false
+  | .const _ => false
+  | .un _ φ => φ.usesSatNe
+  | .bin op φ ψ => (match op with | .predSat .ne => true | _ => false) || φ.usesSatNe || ψ.usesSatNe
+  | .tmp1 _ φ => φ.usesSatNe
+  | .tmp2 _ φ ψ => φ.usesSatNe || ψ.usesSatNe
+  | .tb1 _ _ _ φ => φ.usesSatNe
+  | .tb2 _ _ _ φ ψ => φ.usesSatNe || ψ.usesSatNe
 
 /-- The mirror's state tree against the runner's tree of operation objects, node by node (following `initOn` / `initOnG`). -/
 def StRel : F α → DCfg → OnSt α → GSt α → Prop
@@ -609,7 +623,8 @@ theorem genOn_init (cfg : DCfg) (φ : F α) (hφ : φ.onSupported = true) (st : 
         exact ⟨.bin o gl gr, by simp [initOnG, hgl, hgr, ho], {}, l, r, o, gl, gr, rfl, rfl, hro, hrl, hrr⟩
       · obtain ⟨o, ho, hro⟩ := gen_pred_build (α := α) fuel c
         exact ⟨.bin o gl gr, by simp [initOnG, hgl, hgr, ho], {}, l, r, o, gl, gr, rfl, rfl, hro, hrl, hrr⟩
-      · simp at hop
+      · obtain ⟨o, ho, hro⟩ := gen_iapred_construct (α := α) fuel c [.int 0]
+        exact ⟨.bin o gl gr, by simp [initOnG, hgl, hgr, ho], {}, l, r, o, gl, gr, rfl, rfl, hro, hrl, hrr⟩
       · simp at hop
   | tmp1 op φ ih =>
       cases op <;> simp only [initOn, bind_ok_iff] at h <;> try (cases h; done)
@@ -729,7 +744,8 @@ namespace GOn
 
 /-- `genOn_step` with a fuel bound that does not depend on the tree of objects (it is computed from the mirror's state and
     the batches the mirror hands from node to node) -/
-theorem step_unif (cfg : DCfg) (φ : F α) (hφ : φ.onSupported = true) (st : OnSt α)
+theorem step_unif (cfg : DCfg) (φ : F α) (hφ : φ.onSupported = true)
+    (hne : φ.usesSatNe = true → GOnIA.SatNeLaw α) (st : OnSt α)
     (inp : String → ASig α) (st' : OnSt α) (out : ASig α) (h : stepOn cfg inp φ st = .ok (st', out))
     (hH : HistOK cfg inp φ st) :
     ∃ N, ∀ g, StRel φ cfg st g → ∀ fuel, N ≤ fuel →
@@ -751,7 +767,7 @@ theorem step_unif (cfg : DCfg) (φ : F α) (hφ : φ.onSupported = true) (st : O
       simp only [stepOn, bind_ok_iff] at h
       obtain ⟨⟨c', s⟩, hc, out', hm, h⟩ := h
       cases h
-      obtain ⟨N, hN⟩ := ih hφ c c' s hc (by simpa [HistOK] using hH)
+      obtain ⟨N, hN⟩ := ih hφ (fun k => hne (by simpa [F.usesSatNe] using k)) c c' s hc (by simpa [HistOK] using hH)
       refine ⟨N, fun g hrel fuel hf => ?_⟩
       obtain ⟨c0, o, gc, hst, rfl, hro, hrc⟩ := hrel
       cases hst
@@ -769,8 +785,8 @@ theorem step_unif (cfg : DCfg) (φ : F α) (hφ : φ.onSupported = true) (st : O
         simp only [bind_ok_iff] at h
         obtain ⟨⟨l', sl⟩, hl, ⟨r', sr⟩, hr, ⟨bs', o'⟩, hb, h⟩ := h
         cases h
-        obtain ⟨Nl, hNl⟩ := ihφ h1 l l' sl hl hH'.1
-        obtain ⟨Nr, hNr⟩ := ihψ h2 r r' sr hr hH'.2
+        obtain ⟨Nl, hNl⟩ := ihφ h1 (fun k => hne (by simp [F.usesSatNe, k])) l l' sl hl hH'.1
+        obtain ⟨Nr, hNr⟩ := ihψ h2 (fun k => hne (by simp [F.usesSatNe, k])) r r' sr hr hH'.2
         refine ⟨max (max Nl Nr) (GOnBin.binFuel bs sl sr), fun g hrel fuel hf => ?_⟩
         obtain ⟨bs0, l0, r0, o, gl, gr, hst, rfl, hro, hrl, hrr⟩ := hrel
         cases hst
@@ -785,8 +801,8 @@ theorem step_unif (cfg : DCfg) (φ : F α) (hφ : φ.onSupported = true) (st : O
       · simp only [stepOn, bind_ok_iff] at h
         obtain ⟨⟨l', sl⟩, hl, ⟨r', sr⟩, hr, ⟨bs', o'⟩, hb, h⟩ := h
         cases h
-        obtain ⟨Nl, hNl⟩ := ihφ h1 l l' sl hl hH'.1
-        obtain ⟨Nr, hNr⟩ := ihψ h2 r r' sr hr hH'.2
+        obtain ⟨Nl, hNl⟩ := ihφ h1 (fun k => hne (by simp [F.usesSatNe, k])) l l' sl hl hH'.1
+        obtain ⟨Nr, hNr⟩ := ihψ h2 (fun k => hne (by simp [F.usesSatNe, k])) r r' sr hr hH'.2
         refine ⟨max (max Nl Nr) (GOnBin.binFuel bs sl sr), fun g hrel fuel hf => ?_⟩
         obtain ⟨bs0, l0, r0, o, gl, gr, hst, rfl, hro, hrl, hrr⟩ := hrel
         cases hst
@@ -800,8 +816,8 @@ theorem step_unif (cfg : DCfg) (φ : F α) (hφ : φ.onSupported = true) (st : O
       · simp only [stepOn, bind_ok_iff] at h
         obtain ⟨⟨l', sl⟩, hl, ⟨r', sr⟩, hr, ⟨bs', d⟩, hb, h⟩ := h
         cases h
-        obtain ⟨Nl, hNl⟩ := ihφ h1 l l' sl hl hH'.1
-        obtain ⟨Nr, hNr⟩ := ihψ h2 r r' sr hr hH'.2
+        obtain ⟨Nl, hNl⟩ := ihφ h1 (fun k => hne (by simp [F.usesSatNe, k])) l l' sl hl hH'.1
+        obtain ⟨Nr, hNr⟩ := ihψ h2 (fun k => hne (by simp [F.usesSatNe, k])) r r' sr hr hH'.2
         refine ⟨max (max Nl Nr) (GOnBin.binFuel bs sl sr), fun g hrel fuel hf => ?_⟩
         obtain ⟨bs0, l0, r0, o, gl, gr, hst, rfl, hro, hrl, hrr⟩ := hrel
         cases hst
@@ -812,7 +828,23 @@ theorem step_unif (cfg : DCfg) (φ : F α) (hφ : φ.onSupported = true) (st : O
         obtain ⟨o2, hu, hro'⟩ := hu
         refine ⟨.bin o2 gl' gr', ?_, bs', l', r', o2, gl', gr', rfl, rfl, hro', hrl', hrr'⟩
         simp [stepOnG, hgl, hgr, hu]
-      · simp at hop
+      · rw [stepOn_predSat] at h
+        simp only [bind_ok_iff] at h
+        obtain ⟨⟨l', sl⟩, hl, ⟨r', sr⟩, hr, ⟨bs', o'⟩, hb, h⟩ := h
+        cases h
+        obtain ⟨Nl, hNl⟩ := ihφ h1 (fun k => hne (by simp [F.usesSatNe, k])) l l' sl hl hH'.1
+        obtain ⟨Nr, hNr⟩ := ihψ h2 (fun k => hne (by simp [F.usesSatNe, k])) r r' sr hr hH'.2
+        refine ⟨max (max Nl Nr) (GOnBin.binFuel bs sl sr), fun g hrel fuel hf => ?_⟩
+        obtain ⟨bs0, l0, r0, o, gl, gr, hst, rfl, hro, hrl, hrr⟩ := hrel
+        cases hst
+        obtain ⟨gl', hgl, hrl'⟩ := hNl gl hrl fuel (by omega)
+        obtain ⟨gr', hgr, hrr'⟩ := hNr gr hrr fuel (by omega)
+        have hu := gen_iapredop_updateObj fuel c (fun hc => hne (by subst hc; simp [F.usesSatNe])) bs o hro sl sr
+          (by omega) (gen_on_intersection fuel 3)
+        rw [hb] at hu
+        obtain ⟨o2, hu, hro'⟩ := hu
+        refine ⟨.bin o2 gl' gr', ?_, bs', l', r', o2, gl', gr', rfl, rfl, hro', hrl', hrr'⟩
+        simp [stepOnG, hgl, hgr, hu]
       · simp at hop
   | tmp1 op φ ih =>
       cases st <;> first | (simp [stepOn] at h; done) | skip
@@ -820,7 +852,7 @@ theorem step_unif (cfg : DCfg) (φ : F α) (hφ : φ.onSupported = true) (st : O
       have hH' : HistOK cfg inp φ c := by simpa [HistOK] using hH
       simp only [stepOn, bind_ok_iff] at h
       obtain ⟨⟨c', s⟩, hc, h⟩ := h
-      obtain ⟨N, hN⟩ := ih hφ c c' s hc hH'
+      obtain ⟨N, hN⟩ := ih hφ (fun k => hne (by simpa [F.usesSatNe] using k)) c c' s hc hH'
       refine ⟨N, fun g hrel fuel hf => ?_⟩
       obtain ⟨prev0, c0, o, gc, hst, rfl, hro, hrc⟩ := hrel
       cases hst
@@ -843,8 +875,8 @@ theorem step_unif (cfg : DCfg) (φ : F α) (hφ : φ.onSupported = true) (st : O
       simp only [stepOn, bind_ok_iff] at h
       obtain ⟨⟨l', sl⟩, hl, ⟨r', sr⟩, hr, h⟩ := h
       cases h
-      obtain ⟨Nl, hNl⟩ := ihφ h1 l l' sl hl hH'.1
-      obtain ⟨Nr, hNr⟩ := ihψ h2 r r' sr hr hH'.2
+      obtain ⟨Nl, hNl⟩ := ihφ h1 (fun k => hne (by simp [F.usesSatNe, k])) l l' sl hl hH'.1
+      obtain ⟨Nr, hNr⟩ := ihψ h2 (fun k => hne (by simp [F.usesSatNe, k])) r r' sr hr hH'.2
       refine ⟨max (max Nl Nr) (ss.bufA.length + sl.length + ss.bufB.length + sr.length + 1), fun g hrel fuel hf => ?_⟩
       obtain ⟨ss0, l0, r0, o, gl, gr, hst, rfl, rfl, hro, hrl, hrr⟩ := hrel
       cases hst
@@ -862,7 +894,7 @@ theorem step_unif (cfg : DCfg) (φ : F α) (hφ : φ.onSupported = true) (st : O
       · simp only [stepOn, bind_ok_iff] at h
         obtain ⟨⟨c', s⟩, hc, ⟨ts', out'⟩, hb, h⟩ := h
         cases h
-        obtain ⟨N, hN⟩ := ih hφ c c' s hc hH'.1
+        obtain ⟨N, hN⟩ := ih hφ (fun k => hne (by simpa [F.usesSatNe] using k)) c c' s hc hH'.1
         refine ⟨max N (GOnTimed.G ts s), fun g hrel fuel hf => ?_⟩
         obtain ⟨ts0, c0, o, gc, hst, rfl, hro, hrc⟩ := hrel
         cases hst
@@ -875,7 +907,7 @@ theorem step_unif (cfg : DCfg) (φ : F α) (hφ : φ.onSupported = true) (st : O
       · simp only [stepOn, bind_ok_iff] at h
         obtain ⟨⟨c', s⟩, hc, ⟨ts', out'⟩, hb, h⟩ := h
         cases h
-        obtain ⟨N, hN⟩ := ih hφ c c' s hc hH'.1
+        obtain ⟨N, hN⟩ := ih hφ (fun k => hne (by simpa [F.usesSatNe] using k)) c c' s hc hH'.1
         refine ⟨max N (GOnTimed.G ts s), fun g hrel fuel hf => ?_⟩
         obtain ⟨ts0, c0, o, gc, hst, rfl, hro, hrc⟩ := hrel
         cases hst
@@ -899,8 +931,8 @@ theorem step_unif (cfg : DCfg) (φ : F α) (hφ : φ.onSupported = true) (st : O
       simp only [stepOn, bind_ok_iff] at h
       obtain ⟨⟨l', sl⟩, hl, ⟨r', sr⟩, hr, ⟨o', out1⟩, hb1, ⟨h', out3⟩, hb3, ⟨an', out'⟩, hb4, h⟩ := h
       cases h
-      obtain ⟨Nl, hNl⟩ := ihφ h1 l l' sl hl hH'.1
-      obtain ⟨Nr, hNr⟩ := ihψ h2 r r' sr hr hH'.2.1
+      obtain ⟨Nl, hNl⟩ := ihφ h1 (fun k => hne (by simp [F.usesSatNe, k])) l l' sl hl hH'.1
+      obtain ⟨Nr, hNr⟩ := ihψ h2 (fun k => hne (by simp [F.usesSatNe, k])) r r' sr hr hH'.2.1
       refine ⟨max (max Nl Nr) (sinceTFuel (a * cfg.scale) (b * cfg.scale) o s hh an sl sr), fun g hrel fuel hf => ?_⟩
       obtain ⟨o0, s0, h0, an0, l0, r0, obj, gl, gr, hst, rfl, rfl, hro, hrl, hrr⟩ := hrel
       cases hst
@@ -920,16 +952,17 @@ end GOn
 
 /-- (b) one `update()`: whenever the mirror returns a list, the translated classes return the same list and the new trees
     are related again. -/
-theorem genOn_step (cfg : DCfg) (φ : F α) (hφ : φ.onSupported = true) (st : OnSt α) (g : GSt α) (hrel : StRel φ cfg st g)
+theorem genOn_step (cfg : DCfg) (φ : F α) (hφ : φ.onSupported = true) (hne : φ.usesSatNe = true → GOnIA.SatNeLaw α)
+    (st : OnSt α) (g : GSt α) (hrel : StRel φ cfg st g)
     (inp : String → ASig α) (st' : OnSt α) (out : ASig α) (h : stepOn cfg inp φ st = .ok (st', out))
     (hH : HistOK cfg inp φ st) :
     ∃ N, ∀ fuel, N ≤ fuel → ∃ g', stepOnG fuel inp φ g = .ok (g', out) ∧ StRel φ cfg st' g' := by
-  obtain ⟨N, hN⟩ := step_unif cfg φ hφ st inp st' out h hH
+  obtain ⟨N, hN⟩ := step_unif cfg φ hφ hne st inp st' out h hH
   exact ⟨N, hN g hrel⟩
 
 namespace GOn
 
-theorem go_run (cfg : DCfg) (φ : F α) (hφ : φ.onSupported = true) :
+theorem go_run (cfg : DCfg) (φ : F α) (hφ : φ.onSupported = true) (hne : φ.usesSatNe = true → GOnIA.SatNeLaw α) :
     ∀ (batches : List (String → ASig α)) (st : OnSt α) (outs : List (ASig α)),
       runOn.go cfg φ st batches = .ok outs → HistOKRun cfg φ st batches →
       ∃ N, ∀ g, StRel φ cfg st g → ∀ fuel, N ≤ fuel → runOnG.go fuel φ g batches = .ok outs := by
@@ -945,7 +978,7 @@ theorem go_run (cfg : DCfg) (φ : F α) (hφ : φ.onSupported = true) :
       obtain ⟨⟨st', out⟩, hst, outs', hrest, h⟩ := h
       cases h
       obtain ⟨hH1, hH2⟩ := hH
-      obtain ⟨N1, hN1⟩ := step_unif cfg φ hφ st b st' out hst hH1
+      obtain ⟨N1, hN1⟩ := step_unif cfg φ hφ hne st b st' out hst hH1
       obtain ⟨N2, hN2⟩ := ih st' outs' hrest (hH2 st' out hst)
       refine ⟨max N1 N2, fun g hrel fuel hf => ?_⟩
       obtain ⟨g', hg, hrel'⟩ := hN1 g hrel fuel (by omega)
@@ -956,14 +989,15 @@ end GOn
 
 /-- (b) a sequence of `update()` calls on a fresh monitor: whenever the mirror returns the lists `outs`, the translated
     classes return the same lists, for every `fuel` above a bound (the maximum of the bounds of the steps). -/
-theorem genOn_run (cfg : DCfg) (φ : F α) (hφ : φ.onSupported = true) (batches : List (String → ASig α))
+theorem genOn_run (cfg : DCfg) (φ : F α) (hφ : φ.onSupported = true) (hne : φ.usesSatNe = true → GOnIA.SatNeLaw α)
+    (batches : List (String → ASig α))
     (outs : List (ASig α)) (h : runOn cfg φ batches = .ok outs)
     (hH : ∀ st0, initOn φ = .ok st0 → HistOKRun cfg φ st0 batches) :
     ∃ N, ∀ fuel, N ≤ fuel → runOnG fuel cfg φ batches = .ok outs := by
   simp only [runOn, bind_ok_iff] at h
   obtain ⟨st0, h0, hgo⟩ := h
   obtain ⟨N0, hN0⟩ := genOn_init cfg φ hφ st0 h0
-  obtain ⟨N1, hN1⟩ := go_run cfg φ hφ batches st0 outs hgo (hH st0 h0)
+  obtain ⟨N1, hN1⟩ := go_run cfg φ hφ hne batches st0 outs hgo (hH st0 h0)
   refine ⟨max N0 N1, fun fuel hf => ?_⟩
   obtain ⟨g, hg, hrel⟩ := hN0 fuel (by omega)
   have := hN1 g hrel fuel (by omega)
@@ -1007,7 +1041,11 @@ theorem validChunks_prefix {w : DEnv α} {xs : List String} {pre post : List (St
 
 /-- on the fragment, every list a node returns has finite stamps (from `mirror_aux`, applied to every prefix of the run) -/
 theorem finRun_frag (cfg : DCfg) (hs : 0 ≤ cfg.scale) (w : DEnv α)
-    (hsub : ∀ a b : α, Val.neg (Val.sub a b) = Val.sub b a) (φ : F α) (hfrag : onFrag φ = true) (hw : w.WF φ.vars)
+    (hsub : ∀ a b : α, Val.neg (Val.sub a b) = Val.sub b a) (ia : Bool)
+    (hia : ia = true →
+      ((∀ (c : Cmp) (d d' : α), cmpOfDiff c d = cmpOfDiff c d' → satOfDiff c d = satOfDiff c d') ∧
+        (∀ (c : Cmp) (a b : α), satOfDiff c (Val.sub a b) = c.holds a b)))
+    (φ : F α) (hfrag : onFragG ia φ = true) (hw : w.WF φ.vars)
     (h0 : StartsAt0 w φ.vars) (st0 : OnSt α) (hi : initOn φ = .ok st0) :
     ∀ (bs pre : List (String → ASig α)) (st : OnSt α) (outsPre : List (ASig α)),
       streamOf cfg φ st0 pre = .ok (st, outsPre) → ValidChunks w φ.vars (pre ++ bs) → FinRun cfg φ st bs := by
@@ -1021,7 +1059,7 @@ theorem finRun_frag (cfg : DCfg) (hs : 0 ≤ cfg.scale) (w : DEnv α)
       have hch' : ValidChunks w φ.vars ((pre ++ [b]) ++ rest) := by
         rw [List.append_assoc]; exact hch
       refine ⟨?_, ih (pre ++ [b]) st' (outsPre ++ [out]) hpre' hch'⟩
-      have hok := mirror_aux cfg hs w hsub (pre ++ [b]) φ hfrag hw h0 (validChunks_prefix hch') st0 st' _ hi hpre'
+      have hok := mirror_auxG cfg hs w hsub ia hia (pre ++ [b]) φ hfrag hw h0 (validChunks_prefix hch') st0 st' _ hi hpre'
       exact hok.1.finite out (by simp)
 
 theorem histOKRun_leaf (cfg : DCfg) (φ : F α) (hφ : (∃ x, φ = .var x) ∨ ∃ c, φ = .const c) :
@@ -1123,10 +1161,14 @@ theorem histOKRun_sinceT (cfg : DCfg) (op : TB2) (a b' : Nat) (φ ψ : F α) :
         obtain ⟨o', out1, h', out3, an', _, _, _, rfl⟩ := (sinceTStep_ok _ _ o s h an x y s' out).1 e3
         exact ih o' _ h' an' l' r' (h2 l' x e1) (k2 r' y e2) (hf _ _ (hsin l' x r' y e1 e2)).2
 
-/-- `HistOK` holds along every run of the fragment of C05 -/
+/-- `HistOK` holds along every run of the fragments of C05 (`ia = false`) and C06 (`ia = true`, with `hkey` and `hcmp`) -/
 theorem histOKRun_frag (cfg : DCfg) (hs : 0 ≤ cfg.scale) (w : DEnv α)
-    (hsub : ∀ a b : α, Val.neg (Val.sub a b) = Val.sub b a) (batches : List (String → ASig α)) :
-    ∀ (φ : F α), (onFrag φ = true ∨ isConst φ = true) → w.WF φ.vars → StartsAt0 w φ.vars →
+    (hsub : ∀ a b : α, Val.neg (Val.sub a b) = Val.sub b a) (ia : Bool)
+    (hia : ia = true →
+      ((∀ (c : Cmp) (d d' : α), cmpOfDiff c d = cmpOfDiff c d' → satOfDiff c d = satOfDiff c d') ∧
+        (∀ (c : Cmp) (a b : α), satOfDiff c (Val.sub a b) = c.holds a b)))
+    (batches : List (String → ASig α)) :
+    ∀ (φ : F α), (onFragG ia φ = true ∨ isConst φ = true) → w.WF φ.vars → StartsAt0 w φ.vars →
       ValidChunks w φ.vars batches → ∀ st0, initOn φ = .ok st0 → HistOKRun cfg φ st0 batches := by
   intro φ
   induction φ with
@@ -1134,9 +1176,9 @@ theorem histOKRun_frag (cfg : DCfg) (hs : 0 ≤ cfg.scale) (w : DEnv α)
   | const c => intro _ _ _ _ st0 _; exact histOKRun_leaf cfg _ (.inr ⟨c, rfl⟩) batches st0
   | un op φ ih =>
       intro hfrag hw h0 hch st0 hi
-      have hfrag : onFrag φ = true := by
+      have hfrag : onFragG ia φ = true := by
         rcases hfrag with h | h
-        · simpa [onFrag] using h
+        · simpa [onFragG] using h
         · simp [isConst] at h
       simp only [F.vars] at hw h0 hch
       simp only [initOn] at hi
@@ -1145,20 +1187,20 @@ theorem histOKRun_frag (cfg : DCfg) (hs : 0 ≤ cfg.scale) (w : DEnv α)
       exact histOKRun_un cfg op φ batches c0 (ih (.inl hfrag) hw h0 hch c0 e0)
   | bin op φ ψ ih1 ih2 =>
       intro hfrag hw h0 hch st0 hi
-      have hfrag : onFrag (.bin op φ ψ) = true := by
+      have hfrag : onFragG ia (.bin op φ ψ) = true := by
         rcases hfrag with h | h
         · exact h
         · simp [isConst] at h
-      simp only [onFrag, Bool.and_eq_true, Bool.or_eq_true] at hfrag
+      simp only [onFragG, Bool.and_eq_true, Bool.or_eq_true] at hfrag
       simp only [F.vars] at hw h0 hch
-      obtain ⟨_, hz⟩ := frag_op hfrag.1
+      have hz := (frag_opG hfrag.1).1
       obtain ⟨l0, r0, e1, e2, rfl⟩ := (initOn_bin op hz φ ψ st0).1 hi
-      have hl : onFrag φ = true ∨ isConst φ = true := by
+      have hl : onFragG ia φ = true ∨ isConst φ = true := by
         rcases hfrag.2 with (⟨a, _⟩ | ⟨a, _⟩) | ⟨a, _⟩
         · exact .inl a
         · exact .inr a
         · exact .inl a
-      have hr : onFrag ψ = true ∨ isConst ψ = true := by
+      have hr : onFragG ia ψ = true ∨ isConst ψ = true := by
         rcases hfrag.2 with (⟨_, b⟩ | ⟨_, b⟩) | ⟨_, b⟩
         · exact .inl b
         · exact .inl b
@@ -1168,11 +1210,11 @@ theorem histOKRun_frag (cfg : DCfg) (hs : 0 ≤ cfg.scale) (w : DEnv α)
         (ih2 hr (wf_right hw) (startsAt0_right h0) (validChunks_right hch) r0 e2)
   | tmp1 op φ ih =>
       intro hfrag hw h0 hch st0 hi
-      have hfrag : onFrag (.tmp1 op φ) = true := by
+      have hfrag : onFragG ia (.tmp1 op φ) = true := by
         rcases hfrag with h | h
         · exact h
         · simp [isConst] at h
-      simp only [onFrag, Bool.and_eq_true] at hfrag
+      simp only [onFragG, Bool.and_eq_true] at hfrag
       simp only [F.vars] at hw h0 hch
       cases op <;> simp only [initOn] at hi <;> try (cases hi)
       all_goals
@@ -1181,11 +1223,11 @@ theorem histOKRun_frag (cfg : DCfg) (hs : 0 ≤ cfg.scale) (w : DEnv α)
         exact histOKRun_scan cfg _ φ batches _ c0 (ih (.inl hfrag.2) hw h0 hch c0 e0)
   | tmp2 op φ ψ ih1 ih2 =>
       intro hfrag hw h0 hch st0 hi
-      have hfrag : onFrag (.tmp2 op φ ψ) = true := by
+      have hfrag : onFragG ia (.tmp2 op φ ψ) = true := by
         rcases hfrag with h | h
         · exact h
         · simp [isConst] at h
-      simp only [onFrag, Bool.and_eq_true] at hfrag
+      simp only [onFragG, Bool.and_eq_true] at hfrag
       simp only [F.vars] at hw h0 hch
       cases op <;> simp only [initOn] at hi <;> try (cases hi)
       obtain ⟨l0, e1, hi⟩ := bind_ok hi
@@ -1196,26 +1238,26 @@ theorem histOKRun_frag (cfg : DCfg) (hs : 0 ≤ cfg.scale) (w : DEnv α)
         (ih2 (.inl hfrag.2) (wf_right hw) (startsAt0_right h0) (validChunks_right hch) r0 e2)
   | tb1 op a b φ ih =>
       intro hfrag hw h0 hch st0 hi
-      have hfrag : onFrag (.tb1 op a b φ) = true := by
+      have hfrag : onFragG ia (.tb1 op a b φ) = true := by
         rcases hfrag with h | h
         · exact h
         · simp [isConst] at h
-      simp only [onFrag, Bool.and_eq_true, decide_eq_true_eq] at hfrag
+      simp only [onFragG, Bool.and_eq_true, decide_eq_true_eq] at hfrag
       simp only [F.vars] at hw h0 hch
       cases op <;> simp only [initOn] at hi <;> try (cases hi)
       all_goals
         obtain ⟨c0, e0, hi⟩ := bind_ok hi
         cases hi
         exact histOKRun_timed cfg _ a b φ batches _ c0 (ih (.inl hfrag.2) hw h0 hch c0 e0)
-          (finRun_frag cfg hs w hsub φ hfrag.2 hw h0 c0 e0 batches [] c0 []
+          (finRun_frag cfg hs w hsub ia hia φ hfrag.2 hw h0 c0 e0 batches [] c0 []
             ((runG_nil_ok _ _ _ _).2 ⟨rfl, rfl⟩) hch)
   | tb2 op a b φ ψ ih1 ih2 =>
       intro hfrag hw h0 hch st0 hi
-      have hfrag : onFrag (.tb2 op a b φ ψ) = true := by
+      have hfrag : onFragG ia (.tb2 op a b φ ψ) = true := by
         rcases hfrag with h | h
         · exact h
         · simp [isConst] at h
-      simp only [onFrag, Bool.and_eq_true, decide_eq_true_eq] at hfrag
+      simp only [onFragG, Bool.and_eq_true, decide_eq_true_eq] at hfrag
       have hw' := hw
       have h0' := h0
       have hch' := hch
@@ -1224,31 +1266,32 @@ theorem histOKRun_frag (cfg : DCfg) (hs : 0 ≤ cfg.scale) (w : DEnv α)
       obtain ⟨l0, e1, hi⟩ := bind_ok hi
       obtain ⟨r0, e2, hi⟩ := bind_ok hi
       cases hi
-      have hfs : onFrag (.tmp2 .since φ ψ) = true := by
-        simp only [onFrag, Bool.and_eq_true]; exact ⟨⟨trivial, hfrag.1.2⟩, hfrag.2⟩
+      have hfs : onFragG ia (.tmp2 .since φ ψ) = true := by
+        simp only [onFragG, Bool.and_eq_true]; exact ⟨⟨trivial, hfrag.1.2⟩, hfrag.2⟩
       have his : initOn (.tmp2 .since φ ψ) = .ok (.since { prev := Val.ninf } l0 r0) := by
         simp only [initOn]
         rw [bind_ok_eq e1, bind_ok_eq e2]; rfl
       exact histOKRun_sinceT cfg _ a b φ ψ batches _ _ _ _ l0 r0
         (ih1 (.inl hfrag.1.2) (wf_left hw) (startsAt0_left h0) (validChunks_left hch) l0 e1)
         (ih2 (.inl hfrag.2) (wf_right hw) (startsAt0_right h0) (validChunks_right hch) r0 e2)
-        (finRun_frag cfg hs w hsub (.tmp2 .since φ ψ) hfs hw h0 _ his batches [] _ []
+        (finRun_frag cfg hs w hsub ia hia (.tmp2 .since φ ψ) hfs hw h0 _ his batches [] _ []
           ((runG_nil_ok _ _ _ _).2 ⟨rfl, rfl⟩) hch)
 
-theorem onSupported_of_frag : ∀ (φ : F α), (onFrag φ = true ∨ isConst φ = true) → φ.onSupported = true := by
+theorem onSupported_of_frag (ia : Bool) :
+    ∀ (φ : F α), (onFragG ia φ = true ∨ isConst φ = true) → φ.onSupported = true := by
   intro φ
   induction φ with
   | var x => intro _; rfl
   | const c => intro _; rfl
   | un op φ ih =>
       rintro (h | h)
-      · exact ih (.inl (by simpa [onFrag] using h))
+      · exact ih (.inl (by simpa [onFragG] using h))
       · simp [isConst] at h
   | bin op φ ψ ih1 ih2 =>
       rintro (h | h)
-      · simp only [onFrag, Bool.and_eq_true, Bool.or_eq_true] at h
+      · simp only [onFragG, Bool.and_eq_true, Bool.or_eq_true] at h
         simp only [F.onSupported, Bool.and_eq_true]
-        refine ⟨⟨h.1, ih1 ?_⟩, ih2 ?_⟩
+        refine ⟨⟨(by have := (frag_opG h.1).1; cases op <;> simp at this ⊢), ih1 ?_⟩, ih2 ?_⟩
         · rcases h.2 with (⟨a, _⟩ | ⟨a, _⟩) | ⟨a, _⟩
           · exact .inl a
           · exact .inr a
@@ -1260,23 +1303,68 @@ theorem onSupported_of_frag : ∀ (φ : F α), (onFrag φ = true ∨ isConst φ 
       · simp [isConst] at h
   | tmp1 op φ ih =>
       rintro (h | h)
-      · simp only [onFrag, Bool.and_eq_true] at h; exact ih (.inl h.2)
+      · simp only [onFragG, Bool.and_eq_true] at h; exact ih (.inl h.2)
       · simp [isConst] at h
   | tmp2 op φ ψ ih1 ih2 =>
       rintro (h | h)
-      · simp only [onFrag, Bool.and_eq_true] at h
+      · simp only [onFragG, Bool.and_eq_true] at h
         simp only [F.onSupported, Bool.and_eq_true]
         exact ⟨ih1 (.inl h.1.2), ih2 (.inl h.2)⟩
       · simp [isConst] at h
   | tb1 op a b φ ih =>
       rintro (h | h)
-      · simp only [onFrag, Bool.and_eq_true] at h; exact ih (.inl h.2)
+      · simp only [onFragG, Bool.and_eq_true] at h; exact ih (.inl h.2)
       · simp [isConst] at h
   | tb2 op a b φ ψ ih1 ih2 =>
       rintro (h | h)
-      · simp only [onFrag, Bool.and_eq_true] at h
+      · simp only [onFragG, Bool.and_eq_true] at h
         simp only [F.onSupported, Bool.and_eq_true]
         exact ⟨ih1 (.inl h.1.2), ih2 (.inl h.2)⟩
+      · simp [isConst] at h
+
+/-- the fragment of C05 has no interface-aware predicate -/
+theorem usesSatNe_of_frag : ∀ (φ : F α), (onFragG false φ = true ∨ isConst φ = true) → φ.usesSatNe = false := by
+  intro φ
+  induction φ with
+  | var x => intro _; rfl
+  | const c => intro _; rfl
+  | un op φ ih =>
+      rintro (h | h)
+      · exact ih (.inl (by simpa [onFragG] using h))
+      · simp [isConst] at h
+  | bin op φ ψ ih1 ih2 =>
+      rintro (h | h)
+      · simp only [onFragG, Bool.and_eq_true, Bool.or_eq_true] at h
+        have hl : onFragG false φ = true ∨ isConst φ = true := by
+          rcases h.2 with (⟨a, _⟩ | ⟨a, _⟩) | ⟨a, _⟩
+          · exact .inl a
+          · exact .inr a
+          · exact .inl a
+        have hr : onFragG false ψ = true ∨ isConst ψ = true := by
+          rcases h.2 with (⟨_, b⟩ | ⟨_, b⟩) | ⟨_, b⟩
+          · exact .inl b
+          · exact .inl b
+          · exact .inr b
+        have hop := h.1
+        cases op <;> simp at hop <;> simp [F.usesSatNe, ih1 hl, ih2 hr]
+      · simp [isConst] at h
+  | tmp1 op φ ih =>
+      rintro (h | h)
+      · simp only [onFragG, Bool.and_eq_true] at h; exact ih (.inl h.2)
+      · simp [isConst] at h
+  | tmp2 op φ ψ ih1 ih2 =>
+      rintro (h | h)
+      · simp only [onFragG, Bool.and_eq_true] at h
+        simp [F.usesSatNe, ih1 (.inl h.1.2), ih2 (.inl h.2)]
+      · simp [isConst] at h
+  | tb1 op a b φ ih =>
+      rintro (h | h)
+      · simp only [onFragG, Bool.and_eq_true] at h; exact ih (.inl h.2)
+      · simp [isConst] at h
+  | tb2 op a b φ ψ ih1 ih2 =>
+      rintro (h | h)
+      · simp only [onFragG, Bool.and_eq_true] at h
+        simp [F.usesSatNe, ih1 (.inl h.1.2), ih2 (.inl h.2)]
       · simp [isConst] at h
 
 end GOn
@@ -1290,8 +1378,11 @@ theorem C05_translated_partial (cfg : DCfg) (hs : 0 ≤ cfg.scale) (w : DEnv α)
     (batches : List (String → ASig α)) (hch : ValidChunks w φ.vars batches)
     {outs : List (ASig α)} (he : runOn cfg φ batches = .ok outs) :
     ∃ N, ∀ fuel, N ≤ fuel → runOnG fuel cfg φ batches = .ok outs ∧ StreamOK outs 0 (rhoD cfg w φ) := by
-  obtain ⟨N, hN⟩ := genOn_run cfg φ (onSupported_of_frag φ (.inl hfrag)) batches outs he
-    (fun st0 hi => histOKRun_frag cfg hs w hsub batches φ (.inl hfrag) hw h0 hch st0 hi)
+  have hfrag' : onFragG false φ = true := by rw [← onFrag_eq]; exact hfrag
+  obtain ⟨N, hN⟩ := genOn_run cfg φ (onSupported_of_frag false φ (.inl hfrag'))
+    (fun k => by rw [usesSatNe_of_frag φ (.inl hfrag')] at k; cases k) batches outs he
+    (fun st0 hi => histOKRun_frag cfg hs w hsub false (fun k => absurd k (by simp)) batches φ (.inl hfrag') hw h0 hch
+      st0 hi)
   exact ⟨N, fun fuel hf => ⟨hN fuel hf, C05_online_mirror_partial cfg hs w φ hfrag hw h0 hsub batches hch he⟩⟩
 
 /-- (c) without `sqrt` / `ln` the run raises nothing: there are such lists. -/
@@ -1303,6 +1394,54 @@ theorem C05_translated_total_partial (cfg : DCfg) (hs : 0 ≤ cfg.scale) (w : DE
   obtain ⟨outs, he⟩ := C05_online_total_partial cfg hs w φ hfrag hnp hw h0 batches hch
   obtain ⟨N, hN⟩ := C05_translated_partial cfg hs w φ hfrag hw h0 hsub batches hch he
   exact ⟨N, fun fuel hf => ⟨outs, hN fuel hf⟩⟩
+
+/-- (c) C06 for the translated classes (interface-aware robustness semantics, dense online): on the fragment `onFragIA` - with
+    the interface-aware predicate `.bin (.predSat c) φ ψ`, run through the translated subclass `PredicateOperation` of
+    `rtamt/semantics/iastl/dense_time/online` - under the hypotheses of `C06_online_ia_partial`, whenever the mirror returns
+    `outs`, the monitor run through the classes translated from the Python source returns the same lists for every `fuel`
+    above a bound, and they are the dense-time semantics.  `HistOK` is discharged as for C05 (`histOKRun_frag` with
+    `ia = true`); the law `GOnIA.SatNeLaw` the predicate `!=` needs follows from `hcmp`. -/
+theorem C06_translated_online_partial (cfg : DCfg) (hs : 0 ≤ cfg.scale) (w : DEnv α) (φ : F α)
+    (hfrag : onFragIA φ = true) (hw : w.WF φ.vars) (h0 : StartsAt0 w φ.vars)
+    (hsub : ∀ a b : α, Val.neg (Val.sub a b) = Val.sub b a)
+    (hkey : ∀ (c : Cmp) (d d' : α), cmpOfDiff c d = cmpOfDiff c d' → satOfDiff c d = satOfDiff c d')
+    (hcmp : ∀ (c : Cmp) (a b : α), satOfDiff c (Val.sub a b) = c.holds a b)
+    (batches : List (String → ASig α)) (hch : ValidChunks w φ.vars batches)
+    {outs : List (ASig α)} (he : runOn cfg φ batches = .ok outs) :
+    ∃ N, ∀ fuel, N ≤ fuel → runOnG fuel cfg φ batches = .ok outs ∧ StreamOK outs 0 (rhoD cfg w φ) := by
+  have hfrag' : onFragG true φ = true := by rw [← onFragIA_eq]; exact hfrag
+  obtain ⟨N, hN⟩ := genOn_run cfg φ (onSupported_of_frag true φ (.inl hfrag'))
+    (fun _ => GOnIA.satNeLaw_of_hcmp hcmp) batches outs he
+    (fun st0 hi => histOKRun_frag cfg hs w hsub true (fun _ => ⟨hkey, hcmp⟩) batches φ (.inl hfrag') hw h0 hch st0 hi)
+  exact ⟨N, fun fuel hf => ⟨hN fuel hf, C06_online_ia_partial cfg hs w φ hfrag hw h0 hsub hkey hcmp batches hch he⟩⟩
+
+/-- (c) without `sqrt` / `ln` the run raises nothing: there are such lists. -/
+theorem C06_translated_online_total_partial (cfg : DCfg) (hs : 0 ≤ cfg.scale) (w : DEnv α) (φ : F α)
+    (hfrag : onFragIA φ = true) (hnp : noPartialOps φ = true) (hw : w.WF φ.vars) (h0 : StartsAt0 w φ.vars)
+    (hsub : ∀ a b : α, Val.neg (Val.sub a b) = Val.sub b a)
+    (hkey : ∀ (c : Cmp) (d d' : α), cmpOfDiff c d = cmpOfDiff c d' → satOfDiff c d = satOfDiff c d')
+    (hcmp : ∀ (c : Cmp) (a b : α), satOfDiff c (Val.sub a b) = c.holds a b)
+    (batches : List (String → ASig α)) (hch : ValidChunks w φ.vars batches) :
+    ∃ N, ∀ fuel, N ≤ fuel → ∃ outs, runOnG fuel cfg φ batches = .ok outs ∧ StreamOK outs 0 (rhoD cfg w φ) := by
+  obtain ⟨outs, he⟩ := C06_online_ia_total_partial cfg hs w φ hfrag hnp hw h0 batches hch
+  obtain ⟨N, hN⟩ := C06_translated_online_partial cfg hs w φ hfrag hw h0 hsub hkey hcmp batches hch he
+  exact ⟨N, fun fuel hf => ⟨outs, hN fuel hf⟩⟩
+
+/-- (c) the instance for the formula the interface-aware robustness semantics monitors: `iaT sem inputs φ` (the insensitive
+    predicates of `φ` replaced by `.predSat`; `sem` one of the two robustness semantics or the standard one - under a vacuity
+    semantics `iaT` produces `.predZero`, which `onFragIA` excludes) -/
+theorem C06_translated_online_iaT_partial (cfg : DCfg) (hs : 0 ≤ cfg.scale) (w : DEnv α) (sem : Sem)
+    (inputs : List String) (φ : F α)
+    (hfrag : onFragIA (iaT sem inputs φ) = true) (hw : w.WF (iaT sem inputs φ).vars)
+    (h0 : StartsAt0 w (iaT sem inputs φ).vars)
+    (hsub : ∀ a b : α, Val.neg (Val.sub a b) = Val.sub b a)
+    (hkey : ∀ (c : Cmp) (d d' : α), cmpOfDiff c d = cmpOfDiff c d' → satOfDiff c d = satOfDiff c d')
+    (hcmp : ∀ (c : Cmp) (a b : α), satOfDiff c (Val.sub a b) = c.holds a b)
+    (batches : List (String → ASig α)) (hch : ValidChunks w (iaT sem inputs φ).vars batches)
+    {outs : List (ASig α)} (he : runOn cfg (iaT sem inputs φ) batches = .ok outs) :
+    ∃ N, ∀ fuel, N ≤ fuel →
+      runOnG fuel cfg (iaT sem inputs φ) batches = .ok outs ∧ StreamOK outs 0 (rhoD cfg w (iaT sem inputs φ)) :=
+  C06_translated_online_partial cfg hs w (iaT sem inputs φ) hfrag hw h0 hsub hkey hcmp batches hch he
 
 end c05
 
